@@ -34,7 +34,7 @@ def plan(tier, seed):
 
 def thresholds(tier):
   t = {"design_backend_pairs": 100, "texts_compared": 300, "module_tables_checked": 100, "standalone_bodies_compared": 200,
-       "parameterisations": 300, "hashed_module_names": 20}
+       "parameterisations": 300, "hashed_module_names": 20, "full_names_checked": 150}
   if tier == "thorough":
     t = {k: v * 8 for k, v in t.items()}
   return t
@@ -70,14 +70,16 @@ def gen_param_design(rng, odd=False):
     for _ in range(rng.randrange(1, 5)):
       kval = rng.choice(ODD[:2]) if odd and rng.random() < 0.5 else {"kind": "int", "v": rng.randrange(0, 8)}
       tag = rng.choice(ODD) if odd and rng.random() < 0.7 else gen_param(rng, True)
-      g.append([rng.randrange(2), kval, tag, gen_param(rng, True)])
+      g.append([rng.randrange(2), kval, tag, gen_param(rng, True), rng.randrange(16), rng.randrange(0, 4)])
     if rng.random() < 0.6 and g:
       # instances that differ from g[0] in exactly ONE parameter (a name that ignores a parameter would alias them)
       base = g[0]
-      for pos in rng.sample([0, 1, 2, 3], rng.randrange(1, 4)):
+      for pos in rng.sample([0, 1, 2, 3, 4, 5, 5], rng.randrange(1, 5)):
         v = list(base)
         if pos == 0: v[0] = 1 - base[0]
         elif pos == 1: v[1] = {"kind": "int", "v": (base[1]["v"] + rng.randrange(1, 4)) % 8 if base[1]["v"] >= 0 else 1}
+        elif pos == 4: v[4] = rng.randrange(16)                    # same values, other call shape (defaults vs keywords)
+        elif pos == 5: v[5] = (base[5] + rng.randrange(1, 4)) % 4; v[4] = base[4] | 1     # other `inc`, passed explicitly
         else:
           nv = gen_param(rng, True)
           if nv == base[pos]: continue
@@ -158,6 +160,42 @@ def check_text_table(sh, text, what, item, case):
   return bodies, d
 
 
+def pstr(d):
+  """str() of the python value a descriptor denotes, as the naming scheme prints it; None if not predictable here"""
+  k = d["kind"]
+  if k in ("int", "str", "bool", "float"): return str(d["v"])
+  if k == "none": return "None"
+  if k == "bits_type": return f"Bits{d['n']}"
+  if k in ("tuple", "list"):
+    vals = [pyval(x) for x in d["v"]]
+    if any(v is NotImplemented for v in vals): return None
+    return str(tuple(vals)) if k == "tuple" else str(vals)
+  return None
+
+
+def pyval(d):
+  k = d["kind"]
+  if k in ("int", "str", "bool", "float"): return d["v"]
+  if k == "none": return None
+  if k in ("tuple", "list"):
+    vals = [pyval(x) for x in d["v"]]
+    if any(v is NotImplemented for v in vals): return NotImplemented
+    return tuple(vals) if k == "tuple" else vals
+  return NotImplemented
+
+
+def expected_full_name(item):
+  """documented naming scheme: <class>__<param>_<str(value)>... with the values the instance REALLY has (defaults filled in)"""
+  c = item["cfg"]
+  shape = c[4]
+  inc = str(c[5]) if shape & 1 else "1"
+  tag = pstr(c[2]) if shape & 2 else "None"
+  opt = pstr(c[3]) if shape & 4 else "0"
+  k = pstr(c[1]); T = pstr(item["T"])
+  if None in (tag, opt, k, T): return None
+  return f"{'Leaf' if c[0] == 0 else 'Leaf2'}__T_{T}__k_{k}__inc_{inc}__tag_{tag}__opt_{opt}"
+
+
 def run_shard(sh):
   rng = sh.rng("c13")
   items = []
@@ -224,6 +262,18 @@ def run_shard(sh):
         if item["type"] == "param":
           sh.count("parameterisations", sum(len(g) for g in item["groups"]))
         sh.count("evaluations")
+      if item["type"] == "leaf" and be == "sv":
+        exp = expected_full_name(item)
+        if exp is not None:
+          sh.count("full_names_checked")
+          got = v["top_module"]
+          m = re.search(r"// Full name: (.*)", v["text"])
+          full = m.group(1).strip() if (m and re.search(r"__[0-9a-f]{16}$", got)) else got
+          if full != exp:
+            sh.violation("module-name-does-not-encode-the-parameter-values-of-the-instance", {"expected_full_name": exp, "got_full_name": full,
+                         "module": got, "item": item}, case=("item", i))
+      if item["type"] in ("specgen", "param") and not item.get("top"):
+        pass
       elif be == "sv" and cur_design is not None:
         # stand-alone translation of one class / parameterisation: its top module body must equal the body under that
         # name in the hierarchy's text
@@ -248,7 +298,7 @@ def run_shard(sh):
     pit = []
     for c in range(3):
       pit.append(gen_param_design(sh.rng("odd", c), odd=True))
-    pit.append({"type": "leaf", "T": {"kind": "bits_type", "n": 8}, "cfg": [0, {"kind": "int", "v": 1}, {"kind": "func"}, {"kind": "int", "v": 0}], "backends": ["sv"]})
+    pit.append({"type": "leaf", "T": {"kind": "bits_type", "n": 8}, "cfg": [0, {"kind": "int", "v": 1}, {"kind": "func"}, {"kind": "int", "v": 0}, 6, 1], "backends": ["sv"]})
     po = run_workers(sh, pit, 2, "probe")
     for i, item in enumerate(pit):
       for be in item["backends"]:
